@@ -592,6 +592,8 @@ RULES = {
     # derived Ord on the Sign enum, called through the method syntax -> named helper carrying the assumed contract
     "R17": Rule("R17", "self.sign.cmp(&other.sign) -> sign_cmp(&self.sign, &other.sign)",
                 "self . sign . cmp ( & other . sign )", "sign_cmp ( & self . sign , & other . sign )"),
+    "R2b": Rule("R2b", "Some((&x, y)) => { BODY } -> Some((x_r__, y)) => { let x = *x_r__; BODY }",
+                "Some ( ( & $x , $y ) ) => { $$body }", "Some ( ( x_r__ , $y ) ) => { let $x = * x_r__ ; $$body }"),
     "R4b": Rule("R4b", "for (a, &b) in I { S } -> for (a, b_r__) in I { let b = *b_r__; S }",
                 "for ( $a , & $b ) in $$i { $$s }",
                 "for ( $a , b_r__ ) in $$i { let $b = * b_r__ ; $$s }"),
